@@ -38,6 +38,9 @@ pub enum AStep {
     Panic,
     /// select over two branches that are both ready: logs which one was taken (C04)
     SelectReady,
+    /// two timeouts with the same deadline awaited concurrently in one task:
+    /// join!(timeout(d, sleep(d2)), timeout(d, pending)) - the first loses its delay timer early (d2 < d)
+    JoinTimeouts { d: u64, d2: u64 },
     Shutdown { restart: i64 },
 }
 
@@ -226,6 +229,11 @@ async fn run_task(m: usize, ti: usize, inc: u16, start_ns: u64, spec: TaskSpec, 
                     () = std::future::ready(()) => 2,
                 };
                 log(si, T_READY_BRANCH + b, 0);
+            }
+            AStep::JoinTimeouts { d, d2 } => {
+                let dur = Duration::from_nanos(*d);
+                let (a, b) = tokio::join!(timeout(dur, sleep(Duration::from_nanos(*d2))), timeout(dur, std::future::pending::<()>()));
+                log(si, 500 + u32::from(a.is_ok()) * 2 + u32::from(b.is_ok()), 0);
             }
             AStep::Panic => {
                 if crate::net::twin_mode() {
@@ -485,6 +493,18 @@ pub fn evaluate(tasks: &[TaskSpec], start: u64, ext: &[(u64, usize)]) -> Vec<Exp
                             out.push(Expect { task: ti, step: pc, time: now, codes: vec![T_READY_BRANCH, T_READY_BRANCH + 1, T_READY_BRANCH + 2], val: None });
                             s.pc += 1;
                         }
+                        AStep::JoinTimeouts { d, d2 } => {
+                            // completes when the second timeout elapses (at d); the first is Ok iff d2 <= d
+                            if s.sub == 0 && d > 0 {
+                                s.sub = 1;
+                                s.wake = Some(now + d);
+                            } else {
+                                let first_ok = d2 <= d;
+                                out.push(Expect { task: ti, step: pc, time: now, codes: vec![500 + u32::from(first_ok) * 2], val: None });
+                                s.sub = 0;
+                                s.pc += 1;
+                            }
+                        }
                         AStep::Panic | AStep::Shutdown { .. } => {
                             s.done = true;
                         }
@@ -676,7 +696,11 @@ const MS: u64 = 1_000_000;
 
 fn gen_timer_step(rng: &mut Rng) -> AStep {
     let d = |rng: &mut Rng| *rng.pick(&[0u64, 1, 1_000, MS, 5 * MS, 10 * MS, 250 * MS, 1_000 * MS, 5_000 * MS]) * (1 + rng.below(3));
-    match rng.below(10) {
+    match rng.below(11) {
+        10 => {
+            let dd = d(rng).max(2);
+            AStep::JoinTimeouts { d: dd, d2: if rng.chance(3, 4) { rng.below(dd) } else { d(rng) } }
+        }
         0 | 1 => AStep::Sleep { d: d(rng) },
         2 => AStep::SleepUntil { at: d(rng) * rng.below(4) },
         3 | 4 => AStep::Timeout { d: d(rng), inner: rng.below(3) as u8, d2: d(rng) },
@@ -688,11 +712,12 @@ fn gen_timer_step(rng: &mut Rng) -> AStep {
         7 | 8 => AStep::Reset { d0: d(rng), d1: d(rng), poll_first: rng.chance(2, 3) },
         _ => {
             let period = 20 * MS * (1 + rng.below(5));
-            let work = match rng.below(5) {
+            let work = match rng.below(6) {
                 0 => 0,
                 1 => period / 2,
                 2 => period,
                 3 => 2 * period,
+                4 => period + period / 2, // late by half a period
                 _ => 3 * period + 10 * MS,
             };
             AStep::Interval { period, behaviour: rng.below(3) as u8, ticks: 1 + rng.below(5) as u8, work }
